@@ -36,7 +36,7 @@ pub struct Case {
 }
 
 /// numeric extremes, deep nesting, huge ranges, stray syntax
-pub const REPLACEMENTS: [&str; 52] = [
+pub const REPLACEMENTS: [&str; 66] = [
     "9223372036854775807", "9223372036854775808", "18446744073709551615", "18446744073709551616", "340282366920938463463374607431768211456",
     "-9223372036854775807 - 1", "0.000000000000000000000000000001", "179769313486231570000000000000000000000000000000000000000000000000000000000000000000000000000000000000000000000000000000000000000000000000000000000000000000000000000000000000000000000000000000000000000000000000000000000000000000000000000000000000000000000000000000000000000000000000000000000000000000000000.0",
     "99999999999999999999999999999999999999999999999999999999999999999999999999999999999999999999999999999999999999999999999999999999999999999999999999999999999999999999999999999999999999999999999999999999999999999999999999999999999999999999999999999999999999999999999999999999999999999999999999999999999999999999999999999999.0",
@@ -51,6 +51,10 @@ pub const REPLACEMENTS: [&str; 52] = [
     "len(len(len(len(len(len(len(len(len(len(len(len(len(len(len(len(len(len(len(len(len(len(len(len(a", "a[a[a[a[a[a[a[a[a[a[a[a[a[a[a[a[a[a[a[a[a[a[a[a[a[a[a[a[a[a[0",
     "x_{x_{x_{x_{x_{x_{x_{x_{x_{x_{x_{x_{x_{x_{x_{x_{x_{x_{x_{x_{x_{x_{x_{x_{x_{x_{1", "[[[[[[[[[[[[[[[[[[[[[[[[[[[[[[[[[[[[[[[[1",
     "1))))))))))))))))))))))))))))))))))))))))", "2(2(2(2(2(2(2(2(2(2(2(2(2(2(2(2(2(2(2(2(2(2(2(2(2(2(2(2(2(2(x",
+    // integer limits meeting every other kind of operand (each pair of kinds has its own arithmetic arm)
+    "9223372036854775807 + true", "9223372036854775807 - false - 1 + true + true", "(-9223372036854775807 - 1) - true", "(-9223372036854775807 - 1) * true - true",
+    "true + 9223372036854775807", "9223372036854775807 + 1", "9223372036854775807 * 2", "(-9223372036854775807 - 1) / -1", "(-9223372036854775807 - 1) * -1",
+    "18446744073709551615 + 1", "18446744073709551615 + true", "0 - 18446744073709551615 - 18446744073709551615", "9223372036854775807 + 0.5", "true * 18446744073709551615 * 2",
 ];
 
 /// numbers that replace a number: the text stays a program
